@@ -267,6 +267,4 @@ def run(rep, tier, seed):
 
 
 def replay(rep, path):
-    import json
-    payload = json.load(open(path))
-    print(json.dumps(payload, indent=1)[:4000])
+    fw.replay_generic(rep, path)
